@@ -87,11 +87,14 @@ pub struct Case {
     pub reply_ack: bool,
     pub need_reply: bool,
     pub after_success: bool,
+    /// negotiation order: 0 = GET/SET_FEATURES then GET/SET_PROTOCOL_FEATURES; 1 = protocol
+    /// features negotiated before any SET_FEATURES (QEMU's order); 2 = SET_FEATURES without bit 30
+    pub nego: u8,
 }
 
 impl Case {
     fn json(&self) -> Value {
-        json!({"check": "C03", "op": format!("{:?}", self.op), "outcome": format!("{:?}", self.out), "reply_ack": self.reply_ack, "need_reply": self.need_reply, "after_success": self.after_success})
+        json!({"check": "C03", "op": format!("{:?}", self.op), "outcome": format!("{:?}", self.out), "reply_ack": self.reply_ack, "need_reply": self.need_reply, "after_success": self.after_success, "nego": self.nego})
     }
 }
 
@@ -105,15 +108,42 @@ pub fn run_case(c: &Case, rep: &mut Report) {
     rec.ret_file = Some(res.ret.try_clone().unwrap());
     let mut p = Pair::new(rec, 2);
     let ack = if c.reply_ack { spec::PF_ALL_DEFINED } else { spec::PF_ALL_DEFINED & !spec::PF_REPLY_ACK };
-    if let Err(e) = negotiate(&mut p, ack) {
-        eprintln!("MACHINERY FAILURE: negotiation failed: {e}");
-        std::process::exit(2);
+    let nres = match c.nego {
+        0 => negotiate(&mut p, ack),
+        n => {
+            use vhost::vhost_user::message::VhostUserProtocolFeatures;
+            use vhost::vhost_user::VhostUserFrontend;
+            (|| -> Result<(), String> {
+                let f = p.fe.get_features().map_err(|e| format!("{e:?}"))?;
+                if n == 2 {
+                    p.fe.set_features(f & !spec::VIRTIO_F_PROTOCOL_FEATURES).map_err(|e| format!("{e:?}"))?;
+                    p.server.drain();
+                }
+                p.fe.get_protocol_features().map_err(|e| format!("{e:?}"))?;
+                p.fe.set_protocol_features(VhostUserProtocolFeatures::from_bits_retain(ack)).map_err(|e| format!("{e:?}"))?;
+                p.server.drain();
+                Ok(())
+            })()
+        }
+    };
+    if let Err(e) = nres {
+        // every negotiation step has a succeeding handler, so a failing call is itself a violation
+        let (hung, _) = p.hangs();
+        rep.evaluations += 1;
+        rep.violation(&format!("C03:negotiation:{}", if hung { "indefinite-wait" } else { "error-on-success" }), &format!("negotiation order {} failed although every handler succeeded: {e}", c.nego), c.json());
+        drop(p);
+        coop::disable();
+        return;
     }
     p.fe.set_hdr_flags(if c.need_reply { VhostUserHeaderFlag::NEED_REPLY } else { VhostUserHeaderFlag::empty() });
     if c.after_success {
         if let Err(e) = p.fe.set_vring_num(0, 64) {
-            eprintln!("MACHINERY FAILURE: warm-up call failed: {e:?}");
-            std::process::exit(2);
+            let (hung, _) = p.hangs();
+            rep.evaluations += 1;
+            rep.violation(&format!("C03:set_vring_num:handler_ok:{}", if hung { "indefinite-wait" } else { "error-on-success" }), &format!("acknowledged call after negotiation order {} (reply_ack={}, need_reply={}) failed although the handler succeeded: {e:?}", c.nego, c.reply_ack, c.need_reply), c.json());
+            drop(p);
+            coop::disable();
+            return;
         }
         p.server.drain();
     }
@@ -213,8 +243,12 @@ pub fn run(rep: &mut Report) {
         for out in outs {
             for reply_ack in [false, true] {
                 for need_reply in [false, true] {
-                    for after_success in [false, true] {
-                        let c = Case { op: op.clone(), out: out.clone(), reply_ack, need_reply, after_success };
+                    for (after_success, nego) in [(false, 0u8), (true, 0), (false, 1), (true, 1), (false, 2)] {
+                        // without bit 30 acknowledged the frontend refuses ring enabling locally
+                        if nego != 0 && matches!(op, FeOp::SetVringEnable(..)) {
+                            continue;
+                        }
+                        let c = Case { op: op.clone(), out: out.clone(), reply_ack, need_reply, after_success, nego };
                         if n % 97 == 0 {
                             rep.sample(c.json());
                         }
@@ -252,6 +286,7 @@ pub fn replay(case: &Value, rep: &mut Report) {
                 reply_ack: case["reply_ack"].as_bool().unwrap_or(false),
                 need_reply: case["need_reply"].as_bool().unwrap_or(false),
                 after_success: case["after_success"].as_bool().unwrap_or(false),
+                nego: case["nego"].as_u64().unwrap_or(0) as u8,
             };
             println!("replaying {:?}", c);
             run_case(&c, rep);
